@@ -3,7 +3,7 @@ import LPVerif.Prelude
 namespace LPVerif.Generated
 open LPVerif.Py
 
--- generated from kernprof.py:270 `pre_parse_single_arg_directive` -- do not edit
+-- generated from kernprof.py:283 `pre_parse_single_arg_directive` -- do not edit
 def pre_parse_gen : Nat → List String → String → String → Except PyErr (List String × Option String × List String)
   | 0, _, _, _ => Except.error PyErr.fuel
   | fuel + 1, args, flag, sep =>
